@@ -62,6 +62,10 @@ def call(year, status, amount):
         return None, f'{type(e).__name__}: {e}'.rstrip(': ')
     if isinstance(v, bool) or not isinstance(v, (int, float)) or v != v or v in (float('inf'), float('-inf')):
         return None, f'returned {v!r}'
+    if type(v) is not float:
+        # Form 1040 line 16 is a money line: anything but a float is rejected by the solver (TypeError), i.e. the tax is
+        # undefined for that return
+        return None, f'returned {v!r} of type {type(v).__name__} (line 16 needs a float; the solve would abort)'
     return v, None
 
 
